@@ -67,6 +67,10 @@ def points(tier: str) -> List[Dict[str, Any]]:
     for mix, allow, tc in itertools.product(("v4", "dual"), (False, True), (None, -100, 100, 300)):
         pts.append({"kind": "peer", "mix": mix, "ttls": "default", "allow": allow, "tc": tc, "c2": None, "chain": 0,
                     "noserver": True})
+    # ... and such a description object that was registered (and withdrawn) once before: its host name was defaulted then
+    for mix, allow, tc in itertools.product(("v4", "dual"), (False, True), (None, -100, 100)):
+        pts.append({"kind": "peer", "mix": mix, "ttls": "default", "allow": allow, "tc": tc, "c2": None, "chain": 0,
+                    "noserver": True, "used": "reregistered"})
     # unrelated traffic: responses that put *new* records of other services into the cache while the registration waits
     # between two probes (every new record wakes all waiters of the instance)
     for noise in ((40, 80), (200,), (40, 80, 200, 260), (174, 349), (1, 176)):
